@@ -313,6 +313,23 @@ class SymEval:
                     if lo > hi or hi > len(base[1]):
                         raise Panic("slice [%d..%d] out of range (len %d)" % (lo, hi, len(base[1])))
                     return ("list", base[1][lo:hi])
+            if isinstance(base, tuple) and base[0] == "str" and isinstance(base[1], str) and isinstance(idx, tuple) and idx[0] == "range":
+                # a concrete string sliced by byte positions (a position inside a character panics, as in Rust)
+                rg = idx[1]
+                raw_ = base[1].encode("utf-8")
+                lo = self.ev(rg[1], env) if rg[1] is not None else 0
+                hi = self.ev(rg[2], env) if rg[2] is not None else len(raw_)
+                if rg[3]:
+                    hi += 1
+                if not (isinstance(lo, int) and isinstance(hi, int)):
+                    self.fail("symbolic slice bounds", e)
+                if lo > hi or hi > len(raw_):
+                    raise Panic("str slice [%d..%d] out of range (len %d)" % (lo, hi, len(raw_)))
+                try:
+                    raw_[:lo].decode("utf-8"), raw_[hi:].decode("utf-8")
+                    return ("str", raw_[lo:hi].decode("utf-8"))
+                except UnicodeDecodeError:
+                    raise Panic("str slice not on a character boundary")
             self.fail("index", e)
         if k == "binary":
             op = e[1]
@@ -1458,6 +1475,22 @@ class SymEval:
                     raise Panic("division by zero")
                 return -(-a_ // b_) * (b_ if m == "next_multiple_of" else 1)
             self.fail("wrapping arithmetic needs the operand width", e)
+        if isinstance(recv, tuple) and len(recv) == 2 and recv[0] == "str" and isinstance(recv[1], str):
+            raw_ = recv[1].encode("utf-8")
+            pat_ = args[0][1] if len(args) == 1 and isinstance(args[0], tuple) and len(args[0]) == 2 and args[0][0] == "str" and isinstance(args[0][1], str) else None
+            if m == "len" and not args:
+                return len(raw_)
+            if m == "is_empty" and not args:
+                return not raw_
+            if m in ("find", "rfind") and pat_ is not None:
+                i_ = raw_.find(pat_.encode("utf-8")) if m == "find" else raw_.rfind(pat_.encode("utf-8"))
+                return ("some", i_) if i_ >= 0 else NONE
+            if m in ("contains", "starts_with", "ends_with") and pat_ is not None:
+                return {"contains": pat_ in recv[1], "starts_with": recv[1].startswith(pat_), "ends_with": recv[1].endswith(pat_)}[m]
+            if m in ("as_bytes", "bytes", "into_bytes") and not args:
+                return ("list", list(raw_))
+            if m == "chars" and not args:
+                return ("list", [("str", c_) for c_ in recv[1]])
         if isinstance(recv, bool) and m == "then" and len(args) == 1:
             return ("some", self.apply(args[0], [])) if recv else NONE
         if isinstance(recv, bool) and m == "then_some" and len(args) == 1:
